@@ -11,7 +11,6 @@ use crate::refmodel::graph;
 use crate::util::{Rng, Stats, Tier, fbits, guarded, same_bits, same_val};
 use crate::{Mode, Prop};
 use fidget_core::context::{Context, Node};
-use fidget_core::eval::Function;
 use fidget_core::shape::{Shape, ShapeVars};
 use fidget_core::types::{Grad, Interval};
 use fidget_core::var::Var;
